@@ -3,8 +3,8 @@ package main
 // Minimal reproductions of what fires on the unchanged tree:
 //
 //	/verif/bin/visref repro            (all)
-//	/verif/bin/visref repro vsdest     (R1)
-//	/verif/bin/visref repro drdefault  (R2)
+//	/verif/bin/visref repro vsdest        (R1, R1b, R1c = vsdest-evicts, and their contrasts; a name selects every case it prefixes)
+//	/verif/bin/visref repro drdefault     (R2, R2b = drdefault-ns)
 //	/verif/bin/visref repro crosslistener (R3)
 //
 // Each reproduction is a hand-written world run through the same real generator and the same
@@ -79,6 +79,33 @@ spec:
 				Services: []*svcDef{{UID: 1, Kind: "se", NS: "ns2", Name: "hidden", Hosts: []string{"hidden.example.com"}, Ports: http80(), ExportTo: []string{"~"}, Resolution: "DNS"}},
 				VSs:      []*vsDef{{UID: 2, NS: "ns1", Name: "front", Hosts: []string{"front.example.com"}, Routes: []routeDef{{Kind: "http", Dests: []destDef{{Host: "hidden.example.com"}}}}}},
 				Proxies:  []*proxyDef{{NS: "ns1"}},
+			},
+		},
+		{
+			name: "vsdest-evicts",
+			about: "R1c: positive side of R1. Kubernetes Service ns1/api (api.ns1.svc.cluster.local, port 7070) is exported to ns2 only; ServiceEntry ns2/squat claims the same hostname " +
+				"(port 8080) and is exported to everybody. A sidecar of ns1 without any Sidecar resource must receive outbound|8080||api.ns1.svc.cluster.local (the only service with that " +
+				"hostname exported to ns1, selected by the default */*). A VirtualService visible to ns1 routes to the hostname: collectImportedServices takes " +
+				"HostnameAndNamespace[host][ns1] = the unexported Kubernetes service without IsServiceVisible, and appendSidecarServices lets a Kubernetes service REPLACE the " +
+				"ServiceEntry already selected for the hostname. The exported service's cluster disappears from CDS while RDS still routes to it.",
+			w: &world{
+				Services: []*svcDef{
+					{UID: 1, Kind: "k8s", NS: "ns1", Name: "api", Hosts: []string{"api.ns1.svc.cluster.local"}, Ports: []portDef{{7070, "grpc", "GRPC"}}, ExportTo: []string{"ns2"}},
+					{UID: 2, Kind: "se", NS: "ns2", Name: "squat", Hosts: []string{"api.ns1.svc.cluster.local"}, Ports: []portDef{{8080, "http-alt", "HTTP"}}, ExportTo: []string{"*"}, Resolution: "STATIC"},
+				},
+				VSs:     []*vsDef{{UID: 3, NS: "ns1", Name: "front", Hosts: []string{"front.example.com"}, Routes: []routeDef{{Kind: "http", Dests: []destDef{{Host: "api.ns1.svc.cluster.local"}}}}}},
+				Proxies: []*proxyDef{{NS: "ns1"}},
+			},
+		},
+		{
+			name:  "vsdest-evicts-contrast",
+			about: "R1c contrast (expected silent): without the VirtualService the exported ServiceEntry is delivered.",
+			w: &world{
+				Services: []*svcDef{
+					{UID: 1, Kind: "k8s", NS: "ns1", Name: "api", Hosts: []string{"api.ns1.svc.cluster.local"}, Ports: []portDef{{7070, "grpc", "GRPC"}}, ExportTo: []string{"ns2"}},
+					{UID: 2, Kind: "se", NS: "ns2", Name: "squat", Hosts: []string{"api.ns1.svc.cluster.local"}, Ports: []portDef{{8080, "http-alt", "HTTP"}}, ExportTo: []string{"*"}, Resolution: "STATIC"},
+				},
+				Proxies: []*proxyDef{{NS: "ns1"}},
 			},
 		},
 		{
@@ -174,6 +201,17 @@ spec:
 `,
 			w: &world{
 				Mesh:     meshDef{DefDR: []string{"~"}},
+				Services: []*svcDef{{UID: 1, Kind: "se", NS: "ns1", Name: "svc", Hosts: []string{"a.example.com"}, Ports: http80(), Resolution: "DNS"}},
+				DRs:      []*drDef{{UID: 2, NS: "ns1", Name: "dr", Host: "a.example.com", TopPool: true}},
+				Proxies:  []*proxyDef{{NS: "ns2"}},
+			},
+		},
+		{
+			name: "drdefault-ns",
+			about: "R2b: MeshConfig.defaultDestinationRuleExportTo: [\"ns1\"] - a value the DestinationRule.exportTo field itself accepts, so no question about \"~\". The rule without " +
+				"exportTo in ns1 is by the documented default exported to ns1 only, yet it shapes the cluster of a sidecar in ns2.",
+			w: &world{
+				Mesh:     meshDef{DefDR: []string{"ns1"}},
 				Services: []*svcDef{{UID: 1, Kind: "se", NS: "ns1", Name: "svc", Hosts: []string{"a.example.com"}, Ports: http80(), Resolution: "DNS"}},
 				DRs:      []*drDef{{UID: 2, NS: "ns1", Name: "dr", Host: "a.example.com", TopPool: true}},
 				Proxies:  []*proxyDef{{NS: "ns2"}},
